@@ -1,7 +1,9 @@
-(* C01 driver: histories through the extracted model (ModelIt.yrun_fast / ModelIt.st_yrun / ModelExt.iv_xrun_fast - the
-   fast forms proved equal to yrun / iv_xrun on every invariant state, Properties_it.C01_yfast_model_equal,
+(* C01 driver: histories through the extracted model (ModelEl.zrun_fast / ModelEl.st_zrun / ModelExt.iv_xrun_fast - the
+   fast forms proved equal to zrun / iv_xrun on every invariant state, Properties_el.C01_zfast_model_equal,
    Properties_ext.C01_inplace_vector_fast_model_equal)
-   and spec (SpecIt.yspec_run / st_yspec_run, SpecExt.iv_xspec_run) *)
+   and spec (SpecEl.zspec_run / st_zspec_run, SpecExt.iv_xspec_run).
+   The element type of the flavour enters as ModelEl.elt: its operator< / operator== (records ordered by key only for the
+   `_kt` flavours, the integer order otherwise) and the value a moved-from element is left with. *)
 let b t = next_int t <> 0
 
 (* static_vector flavours: every operation as an xop (the operations of Model.v are wrapped in Base) *)
@@ -10,17 +12,29 @@ let itcat_of (k : int) : itcat =
   | 0 -> ItPtr | 1 | 5 -> ItRandom | 2 -> ItBidi | 3 -> ItForward | 4 -> ItInput
   | _ -> raise Not_found
 
-let parse_sv (t : toks) : yop list =
+(* flavour -> element type: sv_<e> / st_<e> / iv_<e>, `stack` = int *)
+let elt_of (flavour : string) : elt =
+  let e = match String.index_opt flavour '_' with
+    | Some i -> String.sub flavour (i + 1) (String.length flavour - i - 1)
+    | None -> "int" in
+  match e with
+  | "kt" -> elt_keytag
+  | "trk" | "mov" -> elt_total (mv_const (z_of_int (-555)))   (* the instrumented types mark a moved-from object *)
+  | "str" -> elt_total (mv_const (z_of_int 0))                 (* a moved-from std::string is empty *)
+  | _ -> elt_total mv_keep                                     (* int, Pod, NxCopy, TdcCopy: a move is a copy *)
+
+let parse_sv (t : toks) : zop list =
   let k = next_int t in
   let ops = ref [] in
-  let ypush x = ops := x :: !ops in
+  let zpush x = ops := x :: !ops in
+  let ypush x = zpush (ZY x) in
   let push x = ypush (XBase x) in
   let base x = push (Base x) in
   for _ = 1 to k do
     let o = next_str t in
     (match o with
      | "swp" -> base Swap
-     | "rel" -> base Relations
+     | "rel" -> zpush ZRelations
      | "fsw" -> push SwapFree
      | _ ->
        let tg = b t in
@@ -32,14 +46,14 @@ let parse_sv (t : toks) : yop list =
         | "irv" -> let p = next_z t in let x = next_z t in base (InsertRV (tg, p, x))
         | "emp" -> let p = next_z t in let x = next_z t in base (EmplaceAt (tg, p, x))
         | "inn" -> let p = next_z t in let n = next_z t in let x = next_z t in base (InsertN (tg, p, n, x))
-        | "irg" -> let p = next_z t in let xs = next_zlist t in base (InsertRange (tg, p, xs))
+        | "irg" -> let p = next_z t in let xs = next_zlist t in zpush (ZInsertRange (tg, ItPtr, p, xs))
         | "era" -> let p = next_z t in base (EraseAt (tg, p))
         | "err" -> let f = next_z t in let l = next_z t in base (EraseRange (tg, f, l))
         | "clr" -> base (Clear tg)
         | "rsz" -> let n = next_z t in base (Resize (tg, n))
         | "rsv" -> let n = next_z t in let x = next_z t in base (ResizeVal (tg, n, x))
         | "asn" -> let n = next_z t in let x = next_z t in base (AssignN (tg, n, x))
-        | "asr" -> let xs = next_zlist t in base (AssignRange (tg, xs))
+        | "asr" -> let xs = next_zlist t in zpush (ZAssignRange (tg, ItPtr, xs))
         | "cpa" -> base (CopyAssign tg)
         | "mva" -> base (MoveAssign tg)
         | "cpc" -> base (CopyConstruct tg)
@@ -59,11 +73,11 @@ let parse_sv (t : toks) : yop list =
         | "dat" -> push (DataRead tg)
         | "mxs" -> push (MaxSize tg)
         | "sma" -> push (SelfMoveAssign tg)
-        | "mir" -> let p = next_z t in let xs = next_zlist t in push (MoveInsertRange (tg, p, xs))
+        | "mir" -> let p = next_z t in let xs = next_zlist t in zpush (ZMoveInsertRange (tg, ItPtr, p, xs))
         | "ctn" -> let n = next_z t in push (CtorN (tg, n))
         | "ctv" -> let n = next_z t in let x = next_z t in push (CtorNVal (tg, n, x))
-        | "ctr" -> let xs = next_zlist t in push (CtorRange (tg, xs))
-        | "cta" -> let xs = next_zlist t in push (CtorArr (tg, xs))
+        | "ctr" -> let xs = next_zlist t in zpush (ZCtorRange (tg, ItPtr, xs))
+        | "cta" -> let xs = next_zlist t in zpush (ZCtorArr (tg, xs))
         | "cte" -> push (CtorArr (tg, []))
         | "cpi" -> let d = b t in let x = next_z t in push (CopyIndep (tg, d, x))
         | "ebr" -> let x = next_z t in ypush (EmplaceBackRef (tg, x))
@@ -72,25 +86,26 @@ let parse_sv (t : toks) : yop list =
         | "ica" -> let p = next_z t in let k = next_z t in ypush (InsertCRAt (tg, p, k))
         | "ina" -> let p = next_z t in let n = next_z t in let k = next_z t in ypush (InsertNAt (tg, p, n, k))
         | "rva" -> let n = next_z t in let k = next_z t in ypush (ResizeValAt (tg, n, k))
-        | "irk" -> let c = itcat_of (next_int t) in let p = next_z t in let xs = next_zlist t in ypush (InsertRangeIt (tg, c, p, xs))
-        | "mik" -> let c = itcat_of (next_int t) in let p = next_z t in let xs = next_zlist t in ypush (MoveInsertRangeIt (tg, c, p, xs))
-        | "ask" -> let c = itcat_of (next_int t) in let xs = next_zlist t in ypush (AssignRangeIt (tg, c, xs))
-        | "ctk" -> let c = itcat_of (next_int t) in let xs = next_zlist t in ypush (CtorRangeIt (tg, c, xs))
+        | "irk" -> let c = itcat_of (next_int t) in let p = next_z t in let xs = next_zlist t in zpush (ZInsertRange (tg, c, p, xs))
+        | "mik" -> let c = itcat_of (next_int t) in let p = next_z t in let xs = next_zlist t in zpush (ZMoveInsertRange (tg, c, p, xs))
+        | "ask" -> let c = itcat_of (next_int t) in let xs = next_zlist t in zpush (ZAssignRange (tg, c, xs))
+        | "ctk" -> let c = itcat_of (next_int t) in let xs = next_zlist t in zpush (ZCtorRange (tg, c, xs))
         | _ -> raise Not_found))
   done;
   List.rev !ops
 
-let parse_st (t : toks) : st_yop list =
+let parse_st (t : toks) : st_zop list =
   let k = next_int t in
   let ops = ref [] in
-  let ypush x = ops := x :: !ops in
+  let zpush x = ops := x :: !ops in
+  let ypush x = zpush (StZ x) in
   let push x = ypush (StBase x) in
   for _ = 1 to k do
     let o = next_str t in
     (match o with
      | "swp" -> push StSwap
      | "fsw" -> push StSwapFree
-     | "rel" -> push StRelations
+     | "rel" -> zpush StZRelations
      | _ ->
        let tg = b t in
        (match o with
@@ -186,10 +201,10 @@ let run_case op t =
         (render (iv_xrun_fast s0 ops), render_spec (iv_xspec_run cz ([], []) ops))
       end else if has_prefix flavour "st" then begin
         let ops = parse_st t in
-        (render (st_yrun s0 ops), render_spec (st_yspec_run cz ([], []) ops))
+        (render (st_zrun (elt_of flavour) s0 ops), render_spec (st_zspec_run (elt_of flavour) cz ([], []) ops))
       end else begin
         let ops = parse_sv t in
-        (render (yrun_fast pred_of s0 ops), render_spec (yspec_run pred_of cz ([], []) ops))
+        (render (zrun_fast (elt_of flavour) pred_of s0 ops), render_spec (zspec_run (elt_of flavour) pred_of cz ([], []) ops))
       end
   | _ -> raise Not_found
 
